@@ -1,6 +1,6 @@
 SPECIFICATION Spec
 CONSTANTS
   Variant = "overlap"
-  HdrLen = 2
-INVARIANTS TablesWellFormed NonInterferenceAbstract NonInterferenceTables RangeRule
+  HdrLen = 1
+INVARIANTS TablesWellFormed
 CHECK_DEADLOCK FALSE
